@@ -99,47 +99,5 @@ filter_step!(c06_f_embedded, |all, negate, limit| TextSelectionOperator::Embedde
 filter_step!(c06_f_before, |all, negate, limit| TextSelectionOperator::Before { all, negate, limit });
 filter_step!(c06_f_samerange, |all, negate, limit| TextSelectionOperator::SameRange { all, negate });
 
-// the same for a BACKWARD window: the step walks the whole window, buffers what it accepts and then drains
-macro_rules! filter_step_backward {
-    ($name:ident, |$all:ident, $negate:ident, $limit:ident| $op:expr) => {
-        #[kani::proof]
-        #[kani::unwind(4)]
-        fn $name() {
-            let res = with_one_selection(TEXTLEN, 5, 5);
-            let t = TextSelection { intid: Some(TextSelectionHandle(0)), begin: 5, end: 5 };
-            let rb: usize = kani::any();
-            let re: usize = kani::any();
-            kani::assume(rb <= re && re <= TEXTLEN);
-            let rh: u32 = if kani::any() { 0 } else { 1 };
-            let r = TextSelection { intid: Some(TextSelectionHandle(rh)), begin: rb, end: re };
-            let $all: bool = kani::any();
-            let $negate: bool = kani::any();
-            let lim: u8 = kani::any();
-            let $limit: Option<usize> = if kani::any() { Some(lim as usize) } else { None };
-            let op: TextSelectionOperator = $op;
-            let refset = set1(r);
-            let want = refset.test(&op, &t, &res) && rh != 0;
-            let mut textseliters = Vec::with_capacity(1);
-            textseliters.push((res.range(0, TEXTLEN + 1), false));
-            let mut it = FindTextSelectionsIter {
-                resource: &res,
-                operator: op,
-                refset,
-                textseliter_index: 0,
-                textseliters,
-                buffer: VecDeque::with_capacity(2),
-                drain_buffer: false,
-            };
-            let got = it.next_textselection();
-            assert!(got.is_none() && it.drain_buffer, "a backward window is walked to its end, then the buffer is drained");
-            assert!(it.buffer.len() == if want { 1 } else { 0 }, "buffered exactly when the relation test holds and it is not the reference itself");
-            if want { assert!(it.buffer.front() == Some(&TextSelectionHandle(0)), "the buffered handle is the walked selection"); }
-            kani::cover!(want, "buffered");
-            kani::cover!(!want && rh == 0 && rb == 5 && re == 5, "the reference itself is walked and not buffered");
-            core::mem::forget(it);
-            core::mem::forget(res);
-        }
-    };
-}
-filter_step_backward!(c06_fb_sameend, |all, negate, limit| TextSelectionOperator::SameEnd { all, negate });
-filter_step_backward!(c06_fb_overlaps, |all, negate, limit| TextSelectionOperator::Overlaps { all, negate });
+// NOT decided: the BACKWARD step (walk the whole window, push_front into the VecDeque buffer, drain). A harness analogous
+// to filter_step! with a backward window ran out of memory at 26 GB (VecDeque).
